@@ -334,8 +334,21 @@ def special_layout(g, which):
             ops.append({'op': 'add_fp', 'cid': 7800 + k, 'length': 1, 'udf_path': '/data/f%05d' % k})
         for k in range(2):                       # 2-character names: 38+3=41 -> 44 bytes
             ops.append({'op': 'add_fp', 'cid': 7850 + k, 'length': 1, 'udf_path': '/data/g%d' % k})
+        if r.random() < 0.4:
+            # one descriptor short of the boundary, so that the next one straddles or just fits
+            ops.pop()
         for k in range(r.choice([1, 3])):
-            ops.append({'op': 'add_fp', 'cid': 7860 + k, 'length': 1, 'udf_path': '/data/h%05d' % k})
+            # the entries that take the descriptor area into the next sector: every kind of entry
+            kind = r.choice(['file', 'file', 'symlink', 'symlink', 'dir', 'link'])
+            nm = '/data/h%05d' % k if r.random() < 0.6 else '/data/h%05d' % k + 'h' * r.choice([1, 2, 3, 40])
+            if kind == 'file':
+                ops.append({'op': 'add_fp', 'cid': 7860 + k, 'length': 1, 'udf_path': nm})
+            elif kind == 'symlink':
+                ops.append({'op': 'add_symlink', 'udf_symlink_path': nm, 'udf_target': r.choice(['f00000', '../data/g0', '/data/f00001'])})
+            elif kind == 'dir':
+                ops.append({'op': 'add_directory', 'udf_path': nm})
+            else:
+                ops.append({'op': 'add_hard_link', 'old': ('udf', '/data/f00000'), 'new': ('udf', nm)})
         return cfg, ops
     if which in ('shrink-subdir', 'grow-subdir'):
         # a non-root directory that has subdirectories grows over / shrinks below sector boundaries:
